@@ -1,6 +1,6 @@
 #!/bin/bash
-# seedn.sh <round> <Cxx> [ids...] : confirm the round-2 seed in /tmp/seed2/<Cxx>, store it under
-# /verif/seeded/<Cxx>-r2/, apply to /repo, run the property's check(s), undo.
+# seedn.sh <round> <Cxx> [ids...] : confirm the seed of round <round> in /tmp/seed<round>/<Cxx>, store it under
+# /verif/seeded/<Cxx>-r<round>/, apply to /repo, run the property's check(s), undo.
 R=$1; id=$2; shift; shift; ids="$@"; [ -z "$ids" ] && ids=$id
 W=/tmp/seed$R/$id
 v=$(/verif/tools/verify_seed.sh $W 2>&1); echo "$v" | grep -E "suite-with|demo-with|demo=|BUILD|apply"
